@@ -17,13 +17,16 @@ let nok_of = function [] -> None | n :: _ -> Some (nat_of_int (be_int n))
 
 (* ---- receiving side ---- *)
 let err_name = function E0 -> "0" | EDONE -> "EDONE" | EMSGSIZE -> "EMSGSIZE" | EPIPE -> "EPIPE" | EBADF -> "EBADF" | EIO -> "EIO"
+  | EINVAL -> "EINVAL" | E2BIG -> "E2BIG" | ENOSPC -> "ENOSPC" | EFBIG -> "EFBIG" | ENOMEM -> "ENOMEM"
 let err_of_name = function "0" -> Some E0 | "EDONE" -> Some EDONE | "EMSGSIZE" -> Some EMSGSIZE | "EPIPE" -> Some EPIPE
-  | "EBADF" -> Some EBADF | "EIO" -> Some EIO | _ -> None
+  | "EBADF" -> Some EBADF | "EIO" -> Some EIO | "EINVAL" -> Some EINVAL | "E2BIG" -> Some E2BIG | "ENOSPC" -> Some ENOSPC
+  | "EFBIG" -> Some EFBIG | "ENOMEM" -> Some ENOMEM | _ -> None
 
 let show_ev = function
   | EvInit -> "I" | EvHdr -> "H" | EvHBadf -> "HBADF" | EvQ b -> "Q" ^ hex_of_bytes b | EvQBadf -> "QBADF" | EvQFail -> "QFAIL"
   | EvReply c -> "N" ^ string_of_int (int_of_nat c) | EvEnv n -> "E" ^ string_of_int (int_of_nat n)
   | EvReset -> "R" | EvFree -> "F" | EvTarpit -> "T" | EvRc e -> "C" ^ err_name e | Ev503 -> "C503"
+  | EvBegin p -> "B" ^ string_of_int (int_of_nat p) | EvRsetOk -> "RSET"
 
 let parse_ev (t : string) : ev option =
   let n = String.length t in
@@ -31,7 +34,8 @@ let parse_ev (t : string) : ev option =
   let is_num s = s <> "" && String.for_all (fun c -> c >= '0' && c <= '9') s in
   match t with
   | "I" -> Some EvInit | "H" -> Some EvHdr | "HBADF" -> Some EvHBadf | "QBADF" -> Some EvQBadf | "QFAIL" -> Some EvQFail
-  | "R" -> Some EvReset | "F" -> Some EvFree | "T" -> Some EvTarpit | "C503" -> Some Ev503
+  | "R" -> Some EvReset | "F" -> Some EvFree | "T" -> Some EvTarpit | "C503" -> Some Ev503 | "RSET" -> Some EvRsetOk
+  | _ when n > 0 && t.[0] = 'B' && is_num rest -> Some (EvBegin (nat_of_int (int_of_string rest)))
   | _ when n > 0 && t.[0] = 'Q' -> Some (EvQ (bytes_of_hex rest))
   | _ when n > 0 && t.[0] = 'N' && is_num rest -> Some (EvReply (nat_of_int (int_of_string rest)))
   | _ when n > 0 && t.[0] = 'E' && is_num rest -> Some (EvEnv (nat_of_int (int_of_string rest)))
@@ -39,11 +43,12 @@ let parse_ev (t : string) : ev option =
   | _ -> None
 
 (* cfg = q wf wf rf mb mb mb mb; cmds = 5 octets each *)
+let rx_qf cfg = (List.hd (ints_of_hex cfg)) land 1 = 1
 let rx_case cfg cmds stream cuts =
   let c = Array.of_list (ints_of_hex cfg) in
   let wf = c.(1) * 256 + c.(2) and rf = c.(3) in
   let mb = ((c.(4) * 256 + c.(5)) * 256 + c.(6)) * 256 + c.(7) in
-  let config = { c_qinit_fail = (c.(0) land 1 = 1); c_wfail = (if wf = 0xffff then None else Some (nat_of_int wf));
+  let config = { c_wfail = (if wf = 0xffff then None else Some (nat_of_int wf, EPIPE));
                  c_maxbytes = nat_of_int mb; c_rs = rX_KIB; c_fix = rX_CR_AFTER_LOOP } in
   let rec cm = function
     | a :: b :: f :: p :: q :: r -> ((nat_of_int (a * 256 + b), (f land 1 = 1)), nat_of_int (p * 256 + q)) :: cm r
@@ -51,7 +56,7 @@ let rx_case cfg cmds stream cuts =
   (config, cm (ints_of_hex cmds), bytes_of_hex stream, List.map nat_of_int (ints_of_hex cuts),
    (if rf = 0xff then None else Some (nat_of_int rf)))
 
-let com_num = function CsRcpt -> 64 | CsBdat -> 2048 | CsHelo -> 16
+let com_num = function CsRcpt _ -> 64 | CsBdat -> 2048 | CsHelo -> 16
 
 let show_rx = function
   | Ok ((died, s), evs) ->
@@ -62,11 +67,42 @@ let show_rx = function
   | Crash _ -> "CRASH"
   | OutOfFuel -> "OUTOFFUEL"
 
+(* bd: cfg = wf wf we rf mb(4); script = records op pre(2) len(2) payload *)
+let rxs_case cfg script stream cuts =
+  let c = Array.of_list (ints_of_hex cfg) in
+  let wf = c.(0) * 256 + c.(1) and rf = c.(3) in
+  let we = List.nth [EPIPE; ENOSPC; EFBIG; EMSGSIZE; E2BIG; ENOMEM; EIO] c.(2) in
+  let mb = ((c.(4) * 256 + c.(5)) * 256 + c.(6)) * 256 + c.(7) in
+  let config = { c_wfail = (if wf = 0xffff then None else Some (nat_of_int wf, we));
+                 c_maxbytes = nat_of_int mb; c_rs = rX_KIB; c_fix = rX_CR_AFTER_LOOP } in
+  let rec take n l = if n = 0 then ([], l) else match l with x :: r -> let (a, b) = take (n - 1) r in (x :: a, b) | [] -> failwith "short" in
+  let rec ops = function
+    | [] -> []
+    | op :: p1 :: p2 :: l1 :: l2 :: r ->
+        let (pl, rest) = take (l1 * 256 + l2) r in
+        let pre = nat_of_int (p1 * 256 + p2) in
+        (match op with
+         | 1 -> let up = List.map (fun x -> if x >= 97 && x <= 122 then x - 32 else x) pl in
+                (match up with 66 :: 68 :: 65 :: 84 :: _ -> () | _ -> failwith "notbdat");
+                OpLine (pre, List.map n_of_int pl)
+         | 2 -> OpRset pre
+         | 3 -> OpBegin (pre, (match pl with x :: _ -> x land 1 = 1 | [] -> false))
+         | _ -> failwith "op") :: ops rest
+    | _ -> failwith "short" in
+  if c.(2) > 6 then failwith "we";
+  (config, ops (ints_of_hex script), bytes_of_hex stream, List.map nat_of_int (ints_of_hex cuts),
+   (if rf = 0xff then None else Some (nat_of_int rf)))
+
 let model fs = match fs with
+  | "bd" :: cfg :: script :: stream :: rest when String.length cfg = 16 ->
+      (try
+        let (config, ops, st, cuts, rf) = rxs_case cfg script stream (match rest with c :: _ -> c | [] -> "-") in
+        show_rx (rx_script config ops st cuts rf)
+      with Failure _ | Invalid_argument _ -> "BADCASE")
   | "aa" :: cs :: msg :: rest -> show_tx (send_bdat (nat_of_int (be_int cs)) (bytes_of_hex msg) (nok_of rest))
   | "bb" :: cfg :: cmds :: stream :: rest when String.length cfg = 16 && List.length (ints_of_hex cmds) mod 5 = 0 ->
       let (config, cm, st, cuts, rf) = rx_case cfg cmds stream (match rest with c :: _ -> c | [] -> "-") in
-      show_rx (rx_session config cm st cuts rf)
+      show_rx (rx_session config (rx_qf cfg) cm st cuts rf)
   | _ -> "BADCASE"
 
 (* the property quantifies over chunk sizes from the minimum that fits a header (16) *)
@@ -91,9 +127,21 @@ let spec fs obs = match fs, obs with
         | t :: r -> (match parse_ev t with Some e -> evs (e :: acc) r | None -> None)
         | [] -> None in
       (match evs [] obs with
-       | Some l -> if spec_ok_C19_rx config cm st rf l then "ok" else "bad"
+       | Some l -> if spec_ok_C19_rx config (rx_qf cfg) cm st rf l then "ok" else "bad"
        | None -> "bad")
   | "bb" :: _ :: _ :: _ :: _, _ -> "bad"
+  | "bd" :: cfg :: script :: stream :: rest, "OK" :: obs when String.length cfg = 16 ->
+      (try
+        let (config, ops, st, _, rf) = rxs_case cfg script stream "-" in
+        let rec evs acc = function
+          | ("END" | "DIED") :: _ -> Some (List.rev acc)
+          | t :: r -> (match parse_ev t with Some e -> evs (e :: acc) r | None -> None)
+          | [] -> None in
+        (match evs [] obs with
+         | Some l -> if spec_ok_C19_rxs config ops st rf l then "ok" else "bad"
+         | None -> "bad")
+      with Failure _ | Invalid_argument _ -> "BADCASE")
+  | "bd" :: _ :: _ :: _ :: _, _ -> "bad"
   | _ -> "BADCASE"
 
 let () =
